@@ -86,6 +86,13 @@ def gen_cases(tier, seed):
     for j, (me, W, sc) in enumerate(combos):
         out.append({"seed": env.seed_for(seed, ID, tier, "errlimit", me, W, sc), "mode": "preempt_errlimit", "max_errors": me, "W": W, "sched": sc, "n": 12, "ncalls": 12,
                     "shape": "inflight" if (j + seed) % 2 else "independent"})
+    # "attempted at most n times" with the default n = 1 under single-preemption enumeration: the worker of one predecessor of a join is held at every instruction
+    # of its bookkeeping while the other predecessors complete theirs - a join handed to the queue twice would be EXECUTED twice
+    from vmon import preempt
+
+    for d in preempt.gen_descs(tier, seed, ID):
+        if d["shape"] in ("join2", "join3", "hub", "join_then", "mixed"):
+            out.append(d)
     return out
 
 
@@ -309,6 +316,16 @@ def run_case(desc):
         from vmon import preempt
 
         return preempt.enumerate_fail_limit(desc)
+    if mode == "preempt1":
+        from vmon import preempt
+
+        def at_most_once(R, ir):
+            over = {c: k for c, k in R.H.attempts.items() if k > 1}
+            if over:
+                return f"no retry was asked for, yet call(s) were executed more than once: {dict(sorted(over.items())[:4])}"
+            return None
+
+        return preempt.enumerate_case(desc, at_most_once)
     if mode == "retry_unpack":
         return run_retry_unpack(desc)
     if mode == "retry_shared":
